@@ -572,6 +572,8 @@ def r12(ctx):
 
 def run(ctx):
     r12(ctx)
+    from . import C04 as _C04
+    _C04.r5(ctx)   # the software factory runs inside the host's paused runtime on first start too: a clock read or a timer created there belongs to virtual time
     r11(ctx)
     r10(ctx)
     from . import C04
